@@ -5,6 +5,27 @@ import random
 PROPS = {}
 
 
+def rbytes(rng, n):
+    """n bytes with varied texture: uniform random, constant (0x00 / 0xFF / a repeated value), runs, ramps."""
+    k = rng.random()
+    if k < 0.55:
+        return [rng.randint(0, 255) for _ in range(n)]
+    if k < 0.65:
+        return [255] * n
+    if k < 0.72:
+        return [0] * n
+    if k < 0.82:
+        v = rng.randint(0, 255)
+        return [v] * n
+    if k < 0.92:
+        out = []
+        while len(out) < n:
+            out += [rng.randint(0, 255)] * rng.randint(1, 4)
+        return out[:n]
+    s = rng.randint(0, 255)
+    return [(s + i) % 256 for i in range(n)]
+
+
 def prop(d):
     PROPS[d["id"]] = d
     return d
@@ -19,7 +40,7 @@ COMMON_ASSUME = [
 # ---------------------------------------------------------------- C16
 def rand_c16(seed, tier, cases=None):
     rng = random.Random(seed * 7919 + 16)
-    n = 300 if tier == "quick" else 3000
+    n = 1500 if tier == "quick" else 20000
     out = []
     for _ in range(n):
         kind = rng.choice(["g711", "g722", "opus", "opusdepack"])
@@ -30,7 +51,7 @@ def rand_c16(seed, tier, cases=None):
         else:
             mtu = rng.randint(1, 300)
             ln = rng.randint(0, 400)
-        out.append(dict(fam="C16", kind=kind, len=ln, mtu=mtu, salt=rng.randint(0, 249), isnil=False, big=big,
+        out.append(dict(fam="C16", kind=kind, len=ln, mtu=mtu, salt=rng.randint(0, 249), isnil=False, big=big, fillv=rng.choice([-1, -1, -1, 0, 255, rng.randint(0, 255)]),
                         **{"class": "rand_big" if big else "rand"}))
     return out
 
@@ -72,11 +93,14 @@ def _rand_packet(rng):
     if lay == "one":
         profile = 0xBEDE
         ids = rng.sample(range(1, 15), rng.randint(0, 6))
-        exts = [dict(id=i, val=[rng.randint(0, 255) for _ in range(rng.randint(1, 16))]) for i in ids]
+        exts = [dict(id=i, val=rbytes(rng, i if rng.random() < 0.2 else rng.randint(1, 16))) for i in ids]
+        for e in exts:
+            if len(e["val"]) > 16 or not e["val"]:
+                e["val"] = [e["id"]]
     elif lay == "two":
         profile = 0x1000
         ids = rng.sample(range(1, 256), rng.randint(0, 5))
-        exts = [dict(id=i, val=[rng.randint(0, 255) for _ in range(rng.choice([0, 1, 2, 3, 4, 17, 40, 255]))]) for i in ids]
+        exts = [dict(id=i, val=rbytes(rng, rng.choice([0, 1, 2, 3, 4, 17, 40, 77, 255, min(i, 255), rng.randint(0, 255)]))) for i in ids]
     elif lay == "legacy":
         profile = rng.choice([0, 1, 0x1234, 0xBEDF, 0x0FFF, 0x1010, 0xFFFF, rng.randint(0, 65535)])
         if profile in (0xBEDE, 0x1000):
@@ -85,7 +109,7 @@ def _rand_packet(rng):
     padsize = rng.choice([0, 0, 0, 1, 2, 3, 4, 7, 200, 255])
     return dict(ver=rng.randint(0, 3), pad=padsize > 0, x=x, m=rng.random() < 0.5, pt=rng.randint(0, 127),
                 seq=rng.randint(0, 65535), ts=word(), ssrc=word(), csrc=[word() for _ in range(rng.choice([0, 0, 1, 2, 3, 15]))],
-                profile=profile, exts=exts, payload=[rng.randint(0, 255) for _ in range(rng.choice([0, 0, 1, 2, 3, 4, 5, 33, 120]))],
+                profile=profile, exts=exts, payload=rbytes(rng, rng.choice([0, 0, 1, 2, 3, 4, 5, 12, 16, 20, 33, 77, 120, rng.randint(0, 300), 1700 if rng.random() < 0.03 else 9])),
                 padsize=padsize)
 
 
@@ -111,7 +135,7 @@ def rand_c01(seed, tier, cases=None):
     for words in (16384, 16385):
         p = _giant_legacy(rng, words)
         out.append(dict(fam="C01", p=p, tags=_ptags(p), dsts=[], sites=[], **{"class": "giant_legacy"}))
-    for _ in range(800 if tier == "quick" else 20000):
+    for _ in range(2500 if tier == "quick" else 40000):
         p = _rand_packet(rng)
         out.append(dict(fam="C01", p=p, tags=_ptags(p), dsts=[], sites=[], **{"class": "rand_" + _ptags(p)["layout"]}))
     return out
@@ -120,7 +144,7 @@ def rand_c01(seed, tier, cases=None):
 def rand_c04(seed, tier, cases=None):
     rng = random.Random(seed * 7919 + 4)
     out = []
-    for _ in range(300 if tier == "quick" else 6000):
+    for _ in range(800 if tier == "quick" else 12000):
         p = _rand_packet(rng)
         dsts = [[rng.randint(0, 1), rng.randint(0, 400), rng.randint(0, 2)] for _ in range(6)]
         out.append(dict(fam="C04", p=p, tags=_ptags(p), dsts=dsts, sites=[], **{"class": "rand_" + _ptags(p)["layout"]}))
@@ -220,7 +244,7 @@ def rand_c03(seed, tier, cases=None):
         p = _giant_legacy(rng, words)
         img, n, term = _py_image(p, rng)
         out.append(dict(fam="C03", kind="image", bytes=img, prev=[], p=p, n=n, term=False, tags=_ptags(p), **{"class": "giant_legacy_image"}))
-    for _ in range(600 if tier == "quick" else 15000):
+    for _ in range(2000 if tier == "quick" else 30000):
         p = _rand_packet(rng)
         if p["x"] and p["profile"] not in (0xBEDE, 0x1000) and 0x1000 < p["profile"] <= 0x100F:
             p["profile"] = 0x2000  # RFC 8285 appbits: ambiguity the statement does not take a side on
@@ -324,15 +348,15 @@ def rand_c05(seed, tier, cases=None):
     rng = random.Random(seed * 7919 + 5)
     starts = ["fresh", "onebyte", "twobyte", "legacy", "um_onebyte", "um_twobyte", "um_legacy"]
     out = []
-    for _ in range(1500 if tier == "quick" else 40000):
-        n = rng.randint(1, 8)
+    for _ in range(4000 if tier == "quick" else 60000):
+        n = rng.randint(1, 10)
         ops = []
         for j in range(n):
             ident = rng.choice([0, 1, 2, 3, 5, 14, 15, 16, 200, 255])
             if rng.random() < 0.3:
                 ops.append(dict(op="del", id=ident, len=0, salt=j + 1))
             else:
-                ops.append(dict(op="set", id=ident, len=rng.choice([0, 1, 2, 3, 4, 8, 15, 16, 17, 32, 100, 255, 256, 300]), salt=j + 1))
+                ops.append(dict(op="set", id=ident, len=rng.choice([0, 1, 2, 3, 4, 8, 15, 16, 17, 32, 100, 255, 256, 300, ident, rng.randint(0, 40)]), salt=j + 1))
         st = rng.choice(starts)
         out.append(dict(fam="C05", start=st, ops=ops, depth=n, **{"class": st + "_rand"}))
     return out
@@ -361,7 +385,7 @@ prop(dict(
 def rand_c17(seed, tier, cases=None):
     rng = random.Random(seed * 7919 + 17)
     out = []
-    n = 600 if tier == "quick" else 30000
+    n = 4000 if tier == "quick" else 60000
     for _ in range(n):
         codec = rng.choice(["audio", "tcc", "playout", "abssend", "abscapture"])
         if rng.random() < 0.5:
@@ -409,7 +433,7 @@ prop(dict(
 def rand_c19(seed, tier, cases=None):
     rng = random.Random(seed * 7919 + 19)
     out = []
-    for _ in range(2500 if tier == "quick" else 60000):
+    for _ in range(5000 if tier == "quick" else 80000):
         ln = rng.choice([0, 1, 2, 3, 4, 5, 8, rng.randint(0, 40)])
         b = [rng.randint(0, 255) for _ in range(ln)]
         if b and rng.random() < 0.5:
@@ -553,14 +577,14 @@ prop(dict(
 def rand_c06(seed, tier, cases=None):
     rng = random.Random(seed * 7919 + 6)
     out = []
-    for _ in range(400 if tier == "quick" else 8000):
+    for _ in range(1200 if tier == "quick" else 15000):
         mtu = rng.choice([64, 65, 80, 100, 576, 1200, 1500, rng.randint(64, 2000)])
         ops = []
-        for j in range(rng.randint(1, 6)):
+        for j in range(rng.randint(1, 10)):
             k = rng.random()
             smp = rng.choice([[0, 0, 0, 0], [0, 0, 3, 192], [255, 255, 255, 255], [rng.randint(0, 255) for _ in range(4)]])
             if k < 0.6:
-                ops.append(dict(op="packetize", len=rng.choice([1, mtu - 13, mtu - 12, mtu - 11, mtu - 20, mtu - 21, mtu - 19, 2 * (mtu - 12), rng.randint(1, 4 * mtu)]), salt=j + 1, samples=smp, n=0))
+                ops.append(dict(op="packetize", len=max(1, rng.choice([1, mtu - 13, mtu - 12, mtu - 11, mtu - 20, mtu - 21, mtu - 19, 2 * (mtu - 12), rng.randint(1, 4 * mtu), rng.randint(1, 12 * mtu) if mtu < 200 else 77])), salt=j + 1, samples=smp, n=0))
             elif k < 0.75:
                 ops.append(dict(op="skip", len=0, salt=0, samples=smp, n=0))
             elif k < 0.9:
@@ -610,10 +634,10 @@ def _shapes_for(kind):
 def rand_c08(seed, tier, cases=None):
     rng = random.Random(seed * 7919 + 8)
     out = []
-    for _ in range(2500 if tier == "quick" else 60000):
+    for _ in range(6000 if tier == "quick" else 80000):
         kind = rng.choice(C08_KINDS)
         calls = []
-        for j in range(rng.choice([1, 1, 2, 3])):
+        for j in range(rng.choice([1, 1, 2, 3, 5, 7])):
             mtu = rng.choice([rng.randint(0, 40), rng.randint(0, 300), rng.randint(0, 65535), 1200, 1500])
             ln = rng.choice([rng.randint(0, 50), rng.randint(0, 400), rng.randint(0, 3000), 20000 if rng.random() < 0.05 else 7])
             calls.append(dict(mtu=mtu, shape=rng.choice(_shapes_for(kind)), len=ln, salt=rng.randint(0, 200)))
@@ -649,12 +673,12 @@ C09_KINDS = ["h264", "h264_avc", "h265", "h265_donl", "vp8", "vp9", "av1", "av1_
 def rand_c09(seed, tier, cases=None):
     rng = random.Random(seed * 7919 + 9)
     out = []
-    for _ in range(3000 if tier == "quick" else 80000):
+    for _ in range(8000 if tier == "quick" else 100000):
         kind = rng.choice(C09_KINDS)
         items = []
-        for j in range(rng.randint(1, 4)):
-            ln = rng.choice([0, 1, 2, 3, 4, 5, 8, rng.randint(0, 40)])
-            b = [rng.randint(0, 255) for _ in range(ln)]
+        for j in range(rng.randint(1, 8)):
+            ln = rng.choice([0, 1, 2, 3, 4, 5, 8, rng.randint(0, 40), rng.randint(0, 300) if rng.random() < 0.1 else 6])
+            b = rbytes(rng, ln)
             if b and rng.random() < 0.6:
                 b[0] = rng.choice([0x1C, 0x7C, 0x18, 0x78, 0x62, 0x60, 0x64, 0x90, 0x80, 0xFF, 0xAA, 0x10, 0x50, 0x30, 0x00])
             items.append(b)
@@ -690,12 +714,12 @@ prop(dict(
 def rand_c11(seed, tier, cases=None):
     rng = random.Random(seed * 7919 + 11)
     out = []
-    for _ in range(600 if tier == "quick" else 12000):
+    for _ in range(1500 if tier == "quick" else 20000):
         mtu = rng.choice([5, 6, 7, 9, 13, 50, 200, 1200, rng.randint(5, 1500)])
-        frames = [dict(len=rng.choice([1, 2, mtu - 4, mtu - 3, mtu - 1, mtu, mtu + 1, 2 * mtu, rng.randint(1, 3 * mtu)]), salt=rng.randint(0, 200)) for _ in range(rng.randint(1, 5))]
+        frames = [dict(len=rng.choice([1, 2, mtu - 4, mtu - 3, mtu - 1, mtu, mtu + 1, 2 * mtu, rng.randint(1, 3 * mtu), rng.randint(1, 15 * mtu) if mtu < 150 else 300]), salt=rng.randint(0, 200)) for _ in range(rng.randint(1, 9))]
         for f in frames:
             f["len"] = max(1, f["len"])
-        out.append(dict(fam="C11", kind="payload", valid=True, mtu=mtu, pidon=rng.random() < 0.7, startid=rng.choice([0, 1, 126, 127, 128, 32766, 32767, rng.randint(0, 32767)]),
+        out.append(dict(fam="C11", kind="payload", valid=True, mtu=mtu, pidon=rng.random() < 0.7, startid=rng.choice([0, 1, 120, 126, 127, 128, 300, 32760, 32766, 32767, rng.randint(0, 32767)]),
                         frames=frames, **{"class": "rand_payload"}))
     return out
 
@@ -735,7 +759,7 @@ def rand_c10(seed, tier, cases=None):
     # one unit longer than 65535 bytes (the AVC length prefix has four bytes)
     big = [0x65] + [(i * 7) % 250 + 1 for i in range(70000 - 1)]
     out.append(dict(fam="C10", kind="payloader", mtu=1500, stapa=True, calls=[dict(units=[big], scs=[4])], **{"class": "giant_unit"}))
-    for _ in range(500 if tier == "quick" else 12000):
+    for _ in range(2000 if tier == "quick" else 20000):
         mtu = rng.choice([3, 4, 5, 6, 9, 17, 33, 100, 1200, rng.randint(3, 300)])
         stap = rng.random() < 0.6
         calls = []
@@ -754,7 +778,7 @@ def rand_c10(seed, tier, cases=None):
                     units.append(pending.pop()); scs.append(rng.choice([3, 4]))
                     continue
                 t = rng.choice([1, 5, 6, 9, 12, 23, 1, 5])
-                units.append(_nal(t, rng.randint(0, 3), rng.choice([2, 3, mtu - 1, mtu, mtu + 1, 2 * mtu, rng.randint(2, 3 * mtu + 2)]), rng)); scs.append(rng.choice([3, 4]))
+                units.append(_nal(t, rng.randint(0, 3), rng.choice([2, 3, mtu - 1, mtu, mtu + 1, 2 * mtu, rng.randint(2, 3 * mtu + 2), rng.randint(2, 14 * mtu) if mtu < 120 else 77]), rng)); scs.append(rng.choice([3, 4]))
             calls.append(dict(units=units, scs=scs))
         if pending:
             calls.append(dict(units=[pending.pop(), _nal(5, 2, 6, rng)], scs=[3, 3]))
@@ -801,15 +825,15 @@ prop(dict(
 def rand_c12(seed, tier, cases=None):
     rng = random.Random(seed * 7919 + 12)
     out = []
-    for _ in range(400 if tier == "quick" else 8000):
+    for _ in range(1200 if tier == "quick" else 15000):
         mtu = rng.choice([12, 13, 15, 20, 64, 200, 1200, rng.randint(12, 1500)])
         frames = []
-        for n in range(rng.randint(1, 4)):
+        for n in range(rng.randint(1, 8)):
             pr = rng.randint(0, 3)
             hdr = dict(profile=pr, existing=False, idx=0, nonkey=rng.random() < 0.5, show=rng.random() < 0.5, errres=rng.random() < 0.5, deep=rng.random() < 0.5,
                        cs=rng.randint(0, 7), range=rng.random() < 0.5, ssx=rng.random() < 0.5, ssy=rng.random() < 0.5,
                        w=rng.choice([1, 2, 640, 1920, 65535, rng.randint(1, 65535)]), h=rng.choice([1, 480, 1080, 65535, rng.randint(1, 65535)]))
-            frames.append(dict(hdr=hdr, body=rng.choice([0, 1, mtu - 12, mtu - 3, mtu, 2 * mtu, rng.randint(0, 3 * mtu)]), salt=rng.randint(0, 200)))
+            frames.append(dict(hdr=hdr, body=rng.choice([0, 1, mtu - 12, mtu - 3, mtu, 2 * mtu, rng.randint(0, 3 * mtu), rng.randint(0, 14 * mtu) if mtu < 150 else 40]), salt=rng.randint(0, 200)))
         for f in frames:
             f["body"] = max(0, f["body"])
         out.append(dict(fam="C12", kind="payload", valid=True, mtu=mtu, flexible=rng.random() < 0.5, startid=rng.choice([0, 32767, 32766, rng.randint(0, 32767)]),
@@ -842,12 +866,12 @@ prop(dict(
 def rand_c14(seed, tier, cases=None):
     rng = random.Random(seed * 7919 + 14)
     out = []
-    for _ in range(500 if tier == "quick" else 12000):
+    for _ in range(2000 if tier == "quick" else 20000):
         mtu = rng.choice([4, 5, 6, 7, 9, 13, 20, 50, 100, 1200, rng.randint(4, 300)])
         units = []
-        for _u in range(rng.randint(1, 4)):
+        for _u in range(rng.randint(1, 7)):
             t = rng.choice([0, 1, 19, 20, 32, 33, 34, 39, 40, 47, rng.randint(0, 47)])
-            n = rng.choice([3, 4, mtu - 3, mtu - 2, mtu - 1, mtu, mtu + 1, 2 * mtu, rng.randint(3, 3 * mtu + 3)])
+            n = rng.choice([3, 4, mtu - 3, mtu - 2, mtu - 1, mtu, mtu + 1, 2 * mtu, rng.randint(3, 3 * mtu + 3), rng.randint(3, 12 * mtu) if mtu < 150 else 77])
             n = max(3, n)
             layer, tid = rng.randint(0, 63), rng.randint(1, 7)
             units.append([t << 1 | layer >> 5, (layer & 31) << 3 | tid] + [rng.randint(1, 255) for _ in range(n - 2)])
@@ -903,7 +927,7 @@ def _obu_stream(obus):
 def rand_c13(seed, tier, cases=None):
     rng = random.Random(seed * 7919 + 13)
     out = []
-    for _ in range(400 if tier == "quick" else 10000):
+    for _ in range(1200 if tier == "quick" else 15000):
         mtu = rng.choice([2, 3, 4, 5, 7, 16, 64, 129, 130, 131, 200, 1200, rng.randint(2, 400)])
         n = rng.randint(1, 8 if tier == "thorough" else 5)
         obus = []
@@ -912,7 +936,7 @@ def rand_c13(seed, tier, cases=None):
             ln = rng.choice([0, 1, 2, mtu - 2, mtu - 1, mtu, 2 * (mtu - 1) - 1, 2 * (mtu - 1), 126, 127, 128, rng.randint(0, 3 * mtu)])
             ln = max(0, min(ln, 1500))
             obus.append(dict(type=rng.choice([1, 2, 3, 4, 5, 6, 7, 8, 15, rng.randint(0, 15)]), ext=ext, tid=rng.randint(0, 2) if ext else 0, sid=rng.randint(0, 1) if ext else 0,
-                             r3=rng.choice([0, 0, 5]) if ext else 0, r1=rng.choice([0, 0, 1]), hassize=True, payload=[rng.randint(0, 255) for _ in range(ln)]))
+                             r3=rng.choice([0, 0, 5]) if ext else 0, r1=rng.choice([0, 0, 1]), hassize=True, payload=rbytes(rng, ln)))
         if rng.random() < 0.3:
             obus[-1]["hassize"] = False
         out.append(dict(fam="C13", kind="payload", valid=True, mtu=mtu, obus=obus, stream=_obu_stream(obus), **{"class": "rand_obus"}))
